@@ -24,9 +24,12 @@ import (
 
 	"github.com/hashicorp/yamux"
 	"go.temporal.io/server/common/log"
+	"google.golang.org/grpc"
+	"google.golang.org/grpc/credentials/insecure"
 
 	"github.com/temporalio/s2s-proxy/config"
 	vrt "github.com/temporalio/s2s-proxy/internal/verifrt"
+	"github.com/temporalio/s2s-proxy/transport/grpcutil"
 )
 
 type vfTrackedConn struct {
@@ -182,6 +185,9 @@ type vfPoolScenario struct {
 	// connection providers, retry policy and yamux configuration) over the in-memory network; otherwise
 	// NewMuxProvider over a harness connProvider.
 	Real bool `json:"real,omitempty"`
+	// ViaGRPC (with Real): the manager is built by the public NewGRPCMuxManager from a cluster definition whose muxCount
+	// is Size (so the way the configured count reaches the provider is part of what runs).
+	ViaGRPC bool `json:"via_grpc,omitempty"`
 }
 
 type vfPoolJob struct {
@@ -273,7 +279,23 @@ func vfNewPoolExec(sc vfPoolScenario) *vfPoolExec {
 		}
 		return NewMuxProvider(ctx, "verif", e.cp, sessionFn, int64(sc.Size), add, []string{"verif", "mux", "pool"}, logger), nil
 	}
-	mm, err := NewCustomMultiMuxManager(lifetime, "verif", builder, nil, nil, logger)
+	var mm MultiMuxManager
+	var err error
+	if sc.Real && sc.ViaGRPC {
+		e.fn = vfNewFakeNet()
+		vrt.SetFakeNet(&vrt.FakeNet{Dial: e.fn.dial, Listen: e.fn.listen})
+		cd := config.ClusterDefinition{ConnectionType: config.ConnTypeMuxClient, MuxCount: sc.Size, MuxAddressInfo: config.TCPTLSInfo{ConnectionString: "verif-peer:7233"}}
+		if sc.Role == "receiver" {
+			cd.ConnectionType = config.ConnTypeMuxServer
+		}
+		mcc, merr := grpcutil.NewMultiClientConn(lifetime, "verif", grpc.WithTransportCredentials(insecure.NewCredentials()))
+		if merr != nil {
+			panic(merr)
+		}
+		mm, err = NewGRPCMuxManager(lifetime, "verif", cd, mcc, grpc.NewServer(), logger)
+	} else {
+		mm, err = NewCustomMultiMuxManager(lifetime, "verif", builder, nil, nil, logger)
+	}
 	if err != nil {
 		panic(err)
 	}
@@ -624,14 +646,22 @@ func TestVerifC10(t *testing.T) {
 	type fam struct {
 		role string
 		real bool
+		grpc bool
 	}
-	for _, fm := range []fam{{"establisher", false}, {"receiver", false}, {"establisher", true}, {"receiver", true}} {
+	for _, fm := range []fam{{"establisher", false, false}, {"receiver", false, false}, {"establisher", true, false}, {"receiver", true, false}, {"establisher", true, true}, {"receiver", true, true}} {
 		role := fm.role
 		if fm.real {
 			role += "(real provider)"
 		}
+		if fm.grpc {
+			role += "(via NewGRPCMuxManager)"
+		}
 		for _, size := range sizes {
-			sc := vfPoolScenario{Size: size, Role: fm.role, MaxDepth: depth, Real: fm.real}
+			depth := depth
+			if fm.grpc {
+				depth = 3 // the configured count and the wiring of the public constructor: short histories suffice
+			}
+			sc := vfPoolScenario{Size: size, Role: fm.role, MaxDepth: depth, Real: fm.real, ViaGRPC: fm.grpc}
 			type node struct {
 				path    []string
 				enabled []string
